@@ -111,7 +111,7 @@ pub trait KeyT: Hash + Eq + Clone + Send + Sync + 'static {
     fn stamp(&self) -> u64;
     fn serial(&self) -> u64;
 }
-pub trait ValT: Clone + Send + Sync + 'static {
+pub trait ValT: Clone + PartialEq + Send + Sync + 'static {
     const DROP: bool;
     fn mk(v: u64) -> Self;
     fn val(&self) -> u64;
@@ -185,6 +185,9 @@ impl ValT for Vd {
     fn set(&mut self, v: u64) { self.val = v }
     fn serial(&self) -> u64 { self.serial }
 }
+impl PartialEq for Vd {
+    fn eq(&self, o: &Self) -> bool { self.val == o.val }
+}
 impl Clone for Vd {
     fn clone(&self) -> Self {
         let p = with_ctx(|c| countdown(&mut c.clone_panic_nth));
@@ -220,7 +223,7 @@ impl PartialEq for Kp {
     fn eq(&self, o: &Self) -> bool { key_eq(self.id, o.id) }
 }
 impl Eq for Kp {}
-#[derive(Clone, Copy)]
+#[derive(Clone, Copy, PartialEq)]
 pub struct Vp(pub u64);
 impl ValT for Vp {
     const DROP: bool = false;
@@ -257,20 +260,24 @@ pub fn plan_hash(id: u64) -> u64 {
     h
 }
 
+/// BuildHasher following the scripted plan; a non-zero salt gives a differently seeded hasher
+/// (hash = mix64(plan(id) ^ salt)).
 #[derive(Default)]
-pub struct PlanBuild;
+pub struct PlanBuild {
+    pub salt: u64,
+}
 impl Clone for PlanBuild {
     fn clone(&self) -> Self {
         if with_ctx(|c| c.hasher_clone_panics) {
             std::panic::panic_any(HvPanic("hasher-clone"));
         }
-        PlanBuild
+        PlanBuild { salt: self.salt }
     }
 }
-pub struct PlanHasher(u64);
+pub struct PlanHasher(u64, u64);
 impl BuildHasher for PlanBuild {
     type Hasher = PlanHasher;
-    fn build_hasher(&self) -> PlanHasher { PlanHasher(0) }
+    fn build_hasher(&self) -> PlanHasher { PlanHasher(0, self.salt) }
 }
 impl Hasher for PlanHasher {
     fn write(&mut self, bytes: &[u8]) {
@@ -279,7 +286,10 @@ impl Hasher for PlanHasher {
         }
     }
     fn write_u64(&mut self, i: u64) { self.0 = i }
-    fn finish(&self) -> u64 { plan_hash(self.0) }
+    fn finish(&self) -> u64 {
+        let h = plan_hash(self.0);
+        if self.1 != 0 { mix64(h ^ self.1) } else { h }
+    }
 }
 
 // ------------------------------------------------------------------------------------------
